@@ -12,8 +12,18 @@ RULE = ("every operation × replies generated from the RFC 5804 reply grammar (s
 def run(ctx):
     r = rng("c05")
     cases = ms_cases.cases(r, 3 if ctx.tier == "quick" else 8)
+    def shape(c):
+        op, args, reply, exp = c
+        return (op if op in ("listscripts", "getscript", "capability") else "status-op", exp.get("status"), b"{" in reply, b"(" in reply.split(b"\r\n")[-2][:40] if reply.count(b"\r\n") else False)
     if ctx.tier == "quick":
-        cases = r.sample(cases, min(len(cases), 70))
+        # a sample that keeps every SHAPE of reply (operation family × status × with / without a literal × with / without a code)
+        by = {}
+        for c in cases:
+            by.setdefault(shape(c), []).append(c)
+        picked = [c for c in cases if c[3].get("directed")]
+        for k_ in sorted(by, key=repr):
+            picked += r.sample(by[k_], min(len(by[k_]), 4 if k_[2] else 3))
+        cases = picked
     viol, lines, expect = [], [], []
     evals = nontriv = 0
     samples = []
@@ -21,7 +31,13 @@ def run(ctx):
         base, _ = ms_cases.run_case(op, args, reply, [])
         scheds = ms_cases.schedules(len(reply), r, ctx.tier)
         if ctx.tier == "quick" and len(scheds) > 60:
-            scheds = scheds[:25] + r.sample(scheds[25:], 35)
+            nsingle = max(len(reply) - 1, 0)
+            if b"{" in reply and len(reply) <= 160:
+                # a short reply holding a literal: every single cut (the places where a literal, its line and what follows on the
+                # line meet are few and specific), then a sample of the rest
+                scheds = scheds[:nsingle] + r.sample(scheds[nsingle:], min(20, len(scheds) - nsingle))
+            else:
+                scheds = scheds[:25] + r.sample(scheds[25:], 35)
         for i, sc in enumerate(scheds):
             outs, reqs = ms_cases.run_case(op, args, reply, sc)
             evals += 1
